@@ -80,6 +80,15 @@ def judge(case):
     except (solver.Lasso, solver.Budget):
         return core.result("not-judged:no-convergence", nontrivial=bool(v), viol=v)
     if st != "ok":
+        # the curve is the solver's fluxes plus the inversion: when the solver alone returns positive finite fluxes for this very
+        # state, a raising curve means the inversion refused a state it has to report (e.g. a stated pressure of exactly 0)
+        pv2 = solver.ObservedPV(membrane=mem, mixture=mix).observe(budget=300000)
+        st2, j2 = core.call(pv2.calculate_partial_fluxes, feed_temperature=t, composition=comp, precision=1e-12, **kw)
+        if st2 == "ok" and all(math.isfinite(float(j)) and float(j) > 0 for j in j2):
+            v.append(core.viol("C09/curve_raises_where_solver_returns/" + (mode if mode == "vac" else mode[0]),
+                               "the solver returns fluxes %r for this state but the ideal curve (solver + flux -> permeance inversion) raises %r" % (
+                                   (float(j2[0]), float(j2[1])), curve)))
+            return core.result("curve-raised", viol=v)
         return core.result("not-judged:raised", nontrivial=bool(v), viol=v)
     J = (float(curve.partial_fluxes[0][0]), float(curve.partial_fluxes[0][1]))
     rec = curve.permeances[0]
